@@ -191,7 +191,19 @@ fn dump_list_raw(ml: &MorphemeList<&JapaneseDictionary>, text: &str) -> serde_js
         let (b, e) = (m.begin_c(), m.end_c());
         let raw = m.surface().to_string();
         let slice_ok = b <= e && e <= chars.len() && chars[b..e].iter().collect::<String>() == raw;
+        // the raw WordInfo as python/src/word_info.rs converts it (empty forms -> headword, ids as raw 32-bit word ids)
+        let wi = m.get_word_info();
+        let wi = serde_json::json!({
+            "surface": wi.surface(), "hwl": wi.head_word_length(), "len": wi.head_word_length(), "pos_id": wi.pos_id(),
+            "norm": wi.normalized_form(), "dfid": wi.dictionary_form_word_id(),
+            "dform": wi.dictionary_form(), "read": wi.reading_form(),
+            "a": wi.a_unit_split().iter().map(|w| w.as_raw()).collect::<Vec<u32>>(),
+            "b": wi.b_unit_split().iter().map(|w| w.as_raw()).collect::<Vec<u32>>(),
+            "ws": wi.word_structure().iter().map(|w| w.as_raw()).collect::<Vec<u32>>(),
+            "syn": wi.synonym_group_ids(),
+        });
         out.push(serde_json::json!({
+            "wi": wi,
             "b": b, "e": e, "s": raw, "raw": raw, "pos": m.part_of_speech(),
             "norm": m.normalized_form(), "dform": m.dictionary_form(), "read": m.reading_form(),
             "did": m.dictionary_id(), "wid": m.word_id().as_raw(), "oov": m.is_oov(), "len": e - b,
